@@ -260,8 +260,6 @@ func (m *Machine) stub(fn *ssa.Function, args []Value) (Value, bool) {
 			node.elems[i] = c
 		}
 		return node, true
-	case name == "github.com/go-i2p/common/data.HashReader":
-		m.end("unsupported", "data.HashReader (io.Reader based hashing is not modelled)")
 	case name == "crypto/rand.Read" || name == "io.ReadFull" && false:
 		sl := args[0].(Slice)
 		m.varSeq++
@@ -532,7 +530,16 @@ func (m *Machine) hasherInvoke(h *StubHasher, method string, args []Value) Value
 		return Tuple{m.tt.Const(64, uint64(len(c))), Iface{}}
 	case "Sum":
 		m.called["sha256.Sum256"] = true
-		out := append(append([]*Term{}, m.cellsOf(args[0])...), m.idealHash(h.cells)...)
+		digest := m.idealHash(h.cells)
+		// Sum appends: in place when the argument has room (h.Sum(buf[:0]) fills buf)
+		if dst, ok := args[0].(Slice); ok && dst.node != nil && dst.len+len(digest) <= dst.cap {
+			m.noteWrite(dst.node, "hash.Sum appending in place")
+			for i, c := range digest {
+				m.assignInto(dst.node, dst.off+dst.len+i, c)
+			}
+			return Slice{dst.node, dst.off, dst.len + len(digest), dst.cap}
+		}
+		out := append(append([]*Term{}, m.cellsOf(args[0])...), digest...)
 		return m.byteSlice(out)
 	case "Reset":
 		h.cells = nil
@@ -711,6 +718,43 @@ func (m *Machine) syncStub(name string, fn *ssa.Function, args []Value) (Value, 
 		return m.tt.Bool(true), true
 	case "(*sync.Map).Load", "(*sync.Map).Store", "(*sync.Map).LoadOrStore", "(*sync.Map).Delete":
 		return m.syncMapOp(fn.Name(), args)
+	case "(*sync.Pool).Get", "(*sync.Pool).Put":
+		// sync.Pool as a LIFO list per pool object (one goroutine: what was put is what comes back); New is
+		// field 1 of the struct {noCopy, local, localSize, victim, victimSize, New}
+		p, ok := args[0].(Ptr)
+		if !ok || p.isNil() {
+			m.end("gopanic", "sync.Pool method on nil")
+		}
+		if m.syncMaps == nil {
+			m.syncMaps = map[*Node][]syncMapEntry{}
+		}
+		key := p.node
+		st, isStruct := p.node.elems[p.idx].(*Node)
+		if isStruct {
+			key = st
+		}
+		if fn.Name() == "Put" {
+			if ifc, ok := args[1].(Iface); ok && ifc.typ == nil {
+				return nil, true
+			}
+			m.noteWrite(p.node, "sync.Pool.Put")
+			m.syncMaps[key] = append(m.syncMaps[key], syncMapEntry{nil, args[1]})
+			return nil, true
+		}
+		if l := m.syncMaps[key]; len(l) > 0 {
+			m.noteWrite(p.node, "sync.Pool.Get")
+			v := l[len(l)-1].val
+			m.syncMaps[key] = l[:len(l)-1]
+			return v, true
+		}
+		if isStruct {
+			for _, e := range st.elems {
+				if cl, ok := e.(*Closure); ok && cl != nil {
+					return m.call(cl.fn, nil, cl.env), true
+				}
+			}
+		}
+		return Iface{}, true
 	case "(*sync.Once).Do":
 		p, ok := args[0].(Ptr)
 		if !ok || p.isNil() {
